@@ -214,9 +214,12 @@ func (v *signer) StartSigningSession(userContract contract.Contract, params map[
 //	  }
 //	}
 func checkSessionParams(params map[string]interface{}) error {
-	_, ok := params["employer"]
+	employer, ok := params["employer"]
 	if !ok {
 		return fmt.Errorf("missing employer")
+	}
+	if _, ok = employer.(string); !ok {
+		return fmt.Errorf("employer should be a string")
 	}
 	employee, ok := params["employee"]
 	if !ok {
